@@ -130,6 +130,12 @@ def finish(ctx, meta, extra=None):
             seen_keys.add(f.key())
             uniq.append(f)
     unlisted = uniq
+    seen_l, uniq_l = set(), []
+    for f in listed:
+        if f.key() not in seen_l:
+            seen_l.add(f.key())
+            uniq_l.append(f)
+    listed = uniq_l
     for f in listed:
         print(f"KNOWN-FINDING: property={ctx.pid} {f.rule} {f.where} [{f.construct}] {kmap[f.key()].get('what', f.msg)}")
     if ctx.errors:
